@@ -31,6 +31,19 @@ Proof.
   cbn [walk3]. destruct cur as [[c last]|]; [destruct (q =? c)|]; now rewrite IH.
 Qed.
 
+(* the .tbi range test only looks at the triples, too *)
+Lemma range_okb_triples f : range_okb f = forallb (fun t : T => snd t <=? TBI_MAX) (triples f).
+Proof.
+  unfold range_okb, triples. induction f as [|l r IH]; [reflexivity|]. cbn [forallb flat_map].
+  rewrite forallb_app, IH. destruct (tbx l) as [[[q s] e]|]; cbn; [now rewrite andb_true_r|reflexivity].
+Qed.
+
+Lemma range_okb_line f l c s e : range_okb f = true -> In l f -> tbx l = Some (c, s, e) -> e <= TBI_MAX.
+Proof.
+  unfold range_okb. intros H Hl Et. rewrite forallb_forall in H. specialize (H l Hl). rewrite Et in H.
+  now apply Z.leb_le.
+Qed.
+
 (* ---- sorted by (class, seq, start) => accepted --------------------------- *)
 
 Section Walk.
@@ -271,12 +284,33 @@ Section Accepted.
         unfold se_ok, v_t. cbn. lia.
   Qed.
 
-  (* hence index_haps never fails on a well-formed file, and keeps its records *)
-  Theorem index_sorted_total : exists out, index_output true f = Ok out /\
-    tabix_okb out = true /\ Permutation (records f) (records out).
+  (* every coordinate written was read: the output fits a .tbi if the input does *)
+  Theorem sorted_output_range_ok : range_okb f = true -> range_okb (to_str sd) = true.
   Proof.
-    exists (to_str sd). unfold index_output. rewrite read_plain_closed by exact W. cbn [bind].
-    fold V. fold d. fold sd. rewrite sorted_output_tabix_ok. split; [reflexivity|]. split; [reflexivity|].
+    intros R. rewrite range_okb_triples, triples_to_str. apply forallb_forall. intros t Ht.
+    apply Z.leb_le. apply in_app_or in Ht. destruct Ht as [Ht|Ht].
+    - apply in_map_iff in Ht. destruct Ht as [x [<- Hx]].
+      destruct (hrs_line f _ (sd_fst_in x Hx)) as [l [Hl Et]]. exact (range_okb_line f l _ _ _ R Hl Et).
+    - apply in_flat_map in Ht. destruct Ht as [y [Hy Ht]].
+      eapply Permutation_in in Hy; [|symmetry; apply isort_perm]. apply filter_In in Hy. destruct Hy as [Hy _].
+      apply in_map_iff in Ht. destruct Ht as [v [<- Hv]].
+      destruct (sd_vars_in y v Hy Hv) as [HvV _].
+      destruct (vrecs_line f v HvV) as [l [Hl Et]]. exact (range_okb_line f l _ _ _ R Hl Et).
+  Qed.
+
+  Theorem sorted_output_accepted : range_okb f = true -> tabix_accepts (to_str sd) = true.
+  Proof.
+    intros R. unfold tabix_accepts. now rewrite sorted_output_tabix_ok, sorted_output_range_ok.
+  Qed.
+
+  (* hence index_haps never fails on a well-formed file whose coordinates fit a
+     .tbi, and keeps its records *)
+  Theorem index_sorted_total : range_okb f = true ->
+    exists out, index_output true f = Ok out /\
+    tabix_accepts out = true /\ Permutation (records f) (records out).
+  Proof.
+    intros R. exists (to_str sd). unfold index_output. rewrite read_plain_closed by exact W. cbn [bind].
+    fold V. fold d. fold sd. rewrite (sorted_output_accepted R). split; [reflexivity|]. split; [reflexivity|].
     apply sorted_output_keeps_records. exact W.
   Qed.
 End Accepted.
